@@ -4,6 +4,7 @@ use crate::common::{Ctx, Report};
 
 mod c02fm;
 mod c08fm;
+mod c11;
 
 pub fn dispatch(ctx: &Ctx, rep: &mut Report) {
     let fm = ctx.leg == "all" || ctx.leg == "fm";
@@ -95,6 +96,7 @@ pub fn dispatch(ctx: &Ctx, rep: &mut Report) {
                 crate::onris::c10::run(ctx, rep);
             }
         },
+        "C11" => c11::run(ctx, rep),
         other => {
             eprintln!("unknown check {other}");
             std::process::exit(3);
